@@ -280,10 +280,24 @@ func verifC05Structured() {
 // records.
 func verifC05Later() {
 	name := vBytes(2)
-	exts := []vExt{vSNI(name), vVersions(0x0304), vECHOuter(vUint16(), vUint16(), vByte(), vBytes(32), vBytes(3))}
+	withKeys := vBool()
+	var exts []vExt
+	switch vInt(0, 4) {
+	case 0: // GREASE / unknown ECH on a TLS 1.3 hello
+		exts = []vExt{vSNI(name), vVersions(0x0304), vECHOuter(vUint16(), vUint16(), vByte(), vBytes(32), vBytes(3))}
+	case 1: // no ECH at all
+		exts = []vExt{vSNI(name), vVersions(0x0304), {51, vBytes(2)}}
+	case 2: // ECH on a hello that offers TLS 1.2 only
+		exts = []vExt{vSNI(name), vVersions(0x0303), vECHOuter(1, 1, vByte(), vBytes(32), vBytes(3))}
+	case 3: // ECH on a hello without supported_versions
+		exts = []vExt{vSNI(name), vECHOuter(1, 1, vByte(), vBytes(32), vBytes(3))}
+	case 4: // inner-type ECH (backend-bound hello) at a server without keys
+		exts = []vExt{vSNI(name), vVersions(0x0304), vECHInner()}
+		withKeys = false
+	}
 	h := vHello{version: 0x0303, random: vBytes(32), sid: vBytes(1), suites: []byte{0x13, 0x01}, comp: []byte{0}, exts: exts}
 	var opts []Option
-	if vBool() {
+	if withKeys {
 		opts = append(opts, WithKeys(vC08Key()))
 	}
 	tr := newVTransport(h.record())
@@ -294,7 +308,12 @@ func verifC05Later() {
 	for i := 0; i < 3; i++ {
 		var rec []byte
 		toBackend := false
-		switch vInt(0, 4) {
+		switch vInt(0, 6) {
+		case 5: // client bytes that are not record-aligned / announce an illegal length: nothing may be parsed
+			toBackend = true
+			rec = vCat([]byte{22, 3, 3, 0xFF, 0xFF}, vBytes(vInt(0, 2)))
+		case 6: // the same from the backend
+			rec = vCat([]byte{22, 3, 3, 0xFF, 0xFF}, vBytes(vInt(0, 2)))
 		case 0: // HelloRetryRequest from the backend
 			rec = vServerHello(vHRRRandom, h.sid)
 		case 1: // TLS 1.2 style ServerHello without an extension block
@@ -325,4 +344,38 @@ func verifC05Later() {
 	}
 	vAssert(!tr.closed && len(tr.out) >= 0, "connection left alone")
 	vReach("later")
+}
+
+// verifC05SealedNoTLS13: an authentic, correctly sealed payload inside an outer
+// hello that does not offer TLS 1.3 (TLS 1.2 only, two pre-1.3 versions, or no
+// supported_versions): ECH is not processed; the outer hello is forwarded
+// unchanged.
+func verifC05SealedNoTLS13() {
+	name := []byte("pub.example")
+	k := vMakeKey(0, vByte(), [][2]uint16{{1, 1}}, name)
+	outer := vHello{version: 0x0303, random: vBytes(32), sid: vBytes(1), suites: []byte{0x13, 0x01}, comp: []byte{0}}
+	echIdx := 2
+	switch vInt(0, 2) {
+	case 0:
+		v := vUint16()
+		vAssume(v < 0x0304)
+		outer.exts = []vExt{vSNI(name), vVersions(v), {0xfe0d, nil}}
+	case 1:
+		outer.exts = []vExt{vSNI(name), vVersions(0x0303, 0x0302), {0xfe0d, nil}}
+	case 2:
+		outer.exts = []vExt{vSNI(name), {0xfe0d, nil}}
+		echIdx = 1
+	}
+	inner := vHello{version: 0x0303, random: vBytes(32), suites: []byte{0x13, 0x02}, comp: []byte{0},
+		exts: []vExt{vSNI(vBytes(2)), vECHInner(), vVersions(0x0304)}}
+	s := vSeal(k, 1, 1, outer, echIdx, vEncodeInner(inner, 0))
+	rec := s.outer.record()
+	tr := newVTransport(rec)
+	c, err := NewConn(context.Background(), tr, WithKeys([]Key{k.key()}))
+	vAssert(err == nil, "a hello that does not offer TLS 1.3 passes through")
+	vAssert(!c.ECHAccepted(), "ECH is not processed for a hello that does not offer TLS 1.3")
+	got, _ := vReadAll(c, 400, len(rec))
+	vAssert(vBytesEq(got, rec), "the outer hello is forwarded unchanged")
+	vAssert(c.ServerName() == string(name), "ServerName is the outer hello's")
+	vReach("no-tls13")
 }
